@@ -19,8 +19,8 @@ const c02Pkg = "schemes/enc/v1"
 func checkC02(c *Ctx) {
 	r, p := c.R, c.P
 	r.Explanation = "Decides structural necessary conditions of C02 on schemes/enc/v1. " +
-		"(T1) in fileKey.DecryptSegment every use of the output writer is dominated by the success edge of cipher.AEAD.Open (verify before release), a failed Open makes the function return a non-nil error, the ciphertext handed to Open is the segment parameter, and the nonce handed to Open depends on both the segment number and the finality flag (through the nonce builder, whose result bytes must depend on both parameters); " +
-		"(T3) in processSegments, along every path, the first Close/CloseWithError on the pipe is an error close whenever a source-reader error other than EOF or a processFn error is pending, and no return leaves the pipe open with such an error pending; " +
+		"(T1) in fileKey.DecryptSegment every use of the output writer is dominated by the success edge of cipher.AEAD.Open (verify before release), a failed Open makes the function return a non-nil error, the ciphertext handed to Open is the segment parameter, and the nonce handed to Open depends on both the segment number and the finality flag (through the nonce builder, whose result bytes must depend on both parameters), every return that may carry a nil error lies behind Open's success edge (no exception for short or empty segments), and the 32 bits of the segment number reach the nonce injectively (binary PutUint32 of the number, or four byte stores byte(num>>{0,8,16,24}) at four distinct constant offsets, in a window disjoint from the finality byte and not overwritten afterwards; unclassifiable layouts are UNDECIDED); " +
+		"(T3) in processSegments, along every path, the first Close/CloseWithError on the pipe is an error close whenever a source-reader error other than io.EOF (io.ErrUnexpectedEOF is NOT end of input, also not behind io.ReadFull/ReadAtLeast; an error variable re-assigned from a sentinel does not count as the source error) or a processFn error is pending, and no return leaves the pipe open with such an error pending; " +
 		"(T4) the segment number handed to processFn is a loop-carried counter that changes in every iteration, and after a call made with last=true no further segment is processed; " +
 		"(T5) a clean close of the stream is reachable only after a processFn call made with last=true (from the entry: T5-first, after a non-final call: T5-next); " +
 		"(T7) Decrypt returns the reader half of an io.Pipe whose writer half is driven by processSegments with fileKey.DecryptSegment bound to the file key imported from the manifest. " +
@@ -33,6 +33,8 @@ func checkC02(c *Ctx) {
 		"a phi that may carry an error value is treated as carrying it when it is tested against nil (error variables are not overwritten between the call and the test)")
 
 	r.Rule("C02.T1-verify-before-release", "DecryptSegment: every use of the output writer is dominated by the err==nil edge of AEAD.Open", 1)
+	r.Rule("C02.T1-success-implies-verified", "DecryptSegment: every return that may carry a nil error is behind the err==nil edge of AEAD.Open (no exception for short or empty segments)", 1)
+	r.Rule("C02.T1-nonce-injective", "nonce builder: the 32 bits of the segment number reach the nonce injectively, in a window disjoint from the flag byte and not overwritten afterwards", 1)
 	r.Rule("C02.T1-open-failure-returns-error", "DecryptSegment: a return reached with Open's error non-nil returns a non-nil error", 1)
 	r.Rule("C02.T1-open-input", "DecryptSegment: Open authenticates the segment parameter, and released bytes derive from Open's result", 2)
 	r.Rule("C02.T1-nonce-binding", "the nonce handed to Open depends on the segment number and on the finality flag", 2)
@@ -245,6 +247,7 @@ func c02CheckDecryptSegment(p *Prog, r *Report, fn *ssa.Function) {
 			if call, ok := args[1].(*ssa.Call); ok {
 				if callee := staticCallee(call); callee != nil && p.InModule(callee) && len(callee.Blocks) > 0 {
 					c02CheckNonceBuilder(p, r, callee)
+					c02NonceLayout(p, r, name, callee)
 				}
 			}
 		}
@@ -287,6 +290,7 @@ func c02CheckDecryptSegment(p *Prog, r *Report, fn *ssa.Function) {
 			}
 		}
 	})
+	c02SuccessImpliesVerified(p, r, fn, name, opens, openErrs)
 	switch {
 	case nEdges == 0:
 		r.Violation("C02.T1-open-failure-returns-error", name+" return after failed Open", p.Pos(fn.Pos()),
@@ -295,6 +299,96 @@ func c02CheckDecryptSegment(p *Prog, r *Report, fn *ssa.Function) {
 		r.Check(bad == "" && nRet > 0, "C02.T1-open-failure-returns-error", name+" return after failed Open", p.Pos(fn.Pos()),
 			"every return reachable after Open failed returns an error",
 			"the path on which AEAD.Open failed returns a nil error (at "+bad+"): the caller goes on to the next segment and the stream can end in a clean EOF although a segment was rejected")
+	}
+}
+
+// c02SuccessImpliesVerified (T1-success-implies-verified): every return of the
+// segment decryptor that may report success (nil error) lies behind the
+// success edge of AEAD.Open. There is no exception for short or empty
+// segments: "nothing to write" is not "authenticated" (a stub skipped with a
+// nil error lets a document cut inside its last segment end in a clean EOF).
+func c02SuccessImpliesVerified(p *Prog, r *Report, fn *ssa.Function, name string, opens []*ssa.Call, openErrs []ssa.Value) {
+	const ver = 1
+	ff := &FlagFlow{Fn: fn, Must: true,
+		Transfer: func(in ssa.Instruction, st uint64) uint64 { return st },
+		EdgeTransfer: func(from, to *ssa.BasicBlock, st uint64) uint64 {
+			v, isNil, ok := c02NilTest(from, to)
+			if !ok || !isNil {
+				return st
+			}
+			ifi := from.Instrs[len(from.Instrs)-1]
+			for oi, o := range opens {
+				if c02Carries(v, openErrs[oi]) && instrDominates(o, ifi) {
+					return st | ver
+				}
+			}
+			return st
+		}}
+	ff.Run()
+	// nonNilAt: value e, flowing out of block b (along the edge b->to if to != nil), is a non-nil error
+	nonNilAt := func(e ssa.Value, b, to *ssa.BasicBlock) bool {
+		if c02ErrShapeNonNil(e) {
+			return true
+		}
+		if to != nil {
+			if v, isNil, ok := c02NilTest(b, to); ok && !isNil && c02Carries(v, e) {
+				return true
+			}
+		}
+		for s := b; s != nil; s = s.Idom() {
+			if len(s.Preds) != 1 {
+				continue
+			}
+			if v, isNil, ok := c02NilTest(s.Preds[0], s); ok && !isNil && (v == e || c02Carries(v, e)) {
+				return true
+			}
+		}
+		return false
+	}
+	var bad, unknown []string
+	nRet := 0
+	var judge func(e ssa.Value, b, to *ssa.BasicBlock, verified bool, pos string, depth int)
+	judge = func(e ssa.Value, b, to *ssa.BasicBlock, verified bool, pos string, depth int) {
+		if verified {
+			return
+		}
+		if isNilConst(e) {
+			bad = append(bad, pos)
+			return
+		}
+		if nonNilAt(e, b, to) {
+			return
+		}
+		if phi, ok := e.(*ssa.Phi); ok && depth < 4 {
+			for i, inc := range phi.Edges {
+				pred := phi.Block().Preds[i]
+				o, vis := ff.Out(pred)
+				if !vis {
+					continue
+				}
+				judge(inc, pred, phi.Block(), ff.EdgeTransfer(pred, phi.Block(), o)&ver != 0, pos, depth+1)
+			}
+			return
+		}
+		unknown = append(unknown, pos)
+	}
+	ff.AtReturns(func(ret *ssa.Return, st uint64) {
+		if len(ret.Results) == 0 {
+			return
+		}
+		nRet++
+		judge(ret.Results[len(ret.Results)-1], ret.Block(), nil, st&ver != 0, p.Pos(ret.Pos()), 0)
+	})
+	construct := name + " success only after Open"
+	switch {
+	case len(bad) > 0:
+		r.Violation("C02.T1-success-implies-verified", construct, bad[0],
+			"the segment decryptor can return a nil error (at "+strings.Join(c02Uniq(bad), ", ")+") on a path on which AEAD.Open has not succeeded: the segment is reported as processed without having been authenticated. The caller moves on (or, for the final segment, closes the stream cleanly), so e.g. a document cut a few bytes into its last segment ends in a clean EOF with that segment missing")
+	case len(unknown) > 0:
+		r.Undecide("%s: the error returned at %s is neither visibly non-nil nor behind the success edge of AEAD.Open; cannot classify", construct, unknown[0])
+	default:
+		r.Check(nRet > 0, "C02.T1-success-implies-verified", construct, p.Pos(fn.Pos()),
+			"every return that can report success is behind the err==nil edge of AEAD.Open", "the function has no return")
 	}
 }
 
@@ -361,7 +455,7 @@ type c02Loop struct {
 	procFn    *ssa.Parameter
 	reads     []*ssa.Call // calls reading from the source
 	readErrs  []ssa.Value
-	readFull  bool        // some read goes through io.ReadFull/ReadAtLeast (ErrUnexpectedEOF is an end-of-input sentinel too)
+	readFull  bool        // some read goes through io.ReadFull/ReadAtLeast (only used to word the diagnostics)
 	calls     []*ssa.Call // processFn calls
 	callErrs  []ssa.Value
 	closes    []*ssa.Call // Close / CloseWithError on out (incl. deferred, see deferCloses)
@@ -553,14 +647,16 @@ func c02CarrierKnownNonNil(b *ssa.BasicBlock, arg ssa.Value) bool {
 func c02ErrorSurfaces(r *Report, L *c02Loop) {
 	p := L.p
 	const (
-		rdp = 1
-		pfp = 2
+		rdp     = 1
+		pfp     = 2
+		badsent = 16 // the pending source error was matched against a sentinel other than io.EOF (sticky until the next read)
 	)
 	closeState := func(s int) int { return (s >> 2) & 3 }
 	setClose := func(s, k int) int { return (s &^ 12) | (k << 2) }
-	isEOFSentinel := func(name string) bool {
-		return name == "io.EOF" || (L.readFull && name == "io.ErrUnexpectedEOF")
-	}
+	// Only io.EOF is end of input. io.ErrUnexpectedEOF is NOT accepted, also not
+	// behind io.ReadFull/ReadAtLeast: their short-read marker cannot be told from
+	// a source reader that itself fails with io.ErrUnexpectedEOF.
+	pureSources := append(append([]ssa.Value{}, L.readErrs...), L.callErrs...)
 	// effective kind of a close for a path state
 	effKind := func(in ssa.Instruction, cc *ssa.CallCommon, s int) int {
 		k := L.closeKind[in]
@@ -617,7 +713,7 @@ func c02ErrorSurfaces(r *Report, L *c02Loop) {
 		replay = false
 		switch {
 		case isRead[in]:
-			return mapStates(st, func(s int) int { return s | rdp })
+			return mapStates(st, func(s int) int { return (s | rdp) &^ badsent })
 		case isCall[in]:
 			return mapStates(st, func(s int) int { return s | pfp })
 		case isClose[in]:
@@ -644,11 +740,33 @@ func c02ErrorSurfaces(r *Report, L *c02Loop) {
 				clr |= pfp
 			}
 			if clr != 0 {
-				return mapStates(st, func(s int) int { return s &^ clr })
+				return mapStates(st, func(s int) int {
+					if s&badsent != 0 {
+						// the source error is known to be a non-EOF sentinel: a nil value here is a replacement, not the error
+						return s &^ (clr &^ rdp)
+					}
+					return s &^ clr
+				})
 			}
 		}
-		if v, sent, ok := c02SentinelTest(from, to); ok && isEOFSentinel(sent) && c02CarriesAny(v, L.readErrs) {
-			return mapStates(st, func(s int) int { return s &^ rdp })
+		if v, sent, ok := c02SentinelTest(from, to); ok && c02CarriesAny(v, L.readErrs) {
+			if sent == "io.EOF" {
+				if c02PureCarrier(v, pureSources) {
+					return mapStates(st, func(s int) int {
+						if s&badsent != 0 {
+							return s
+						}
+						return s &^ rdp
+					})
+				}
+				return st
+			}
+			return mapStates(st, func(s int) int {
+				if s&rdp != 0 {
+					return s | badsent
+				}
+				return s
+			})
 		}
 		return st
 	}
@@ -656,8 +774,18 @@ func c02ErrorSurfaces(r *Report, L *c02Loop) {
 
 	pendingText := func(s int) string {
 		var w []string
-		if s&rdp != 0 {
-			w = append(w, "an error of the source reader other than end-of-input")
+		if s&rdp != 0 && s&badsent != 0 {
+			txt := "an error of the source reader that was matched against a sentinel other than io.EOF (io.ErrUnexpectedEOF and the like are real failures of the source — a body shorter than announced, a truncated archive — and must not be treated as end of input)"
+			if L.readFull {
+				txt += "; the fill goes through io.ReadFull/io.ReadAtLeast, whose short-read marker io.ErrUnexpectedEOF cannot be told from a source that fails with io.ErrUnexpectedEOF, so tolerating it hides a source error"
+			}
+			w = append(w, txt)
+		} else if s&rdp != 0 {
+			txt := "an error of the source reader other than io.EOF"
+			if L.readFull {
+				txt += " (the fill goes through io.ReadFull/io.ReadAtLeast: only io.EOF may be treated as end of input, io.ErrUnexpectedEOF cannot be told from a failing source)"
+			}
+			w = append(w, txt)
 		}
 		if s&pfp != 0 {
 			w = append(w, "an error of the segment processor (failed authentication)")
@@ -667,7 +795,7 @@ func c02ErrorSurfaces(r *Report, L *c02Loop) {
 	// clean close while pending
 	checkClose := func(in ssa.Instruction, cc *ssa.CallCommon, st uint64, atPos string) {
 		bad := ""
-		for s := 0; s < 16; s++ {
+		for s := 0; s < 32; s++ {
 			if st&(1<<uint(s)) == 0 || closeState(s) != 0 {
 				continue
 			}
@@ -694,7 +822,7 @@ func c02ErrorSurfaces(r *Report, L *c02Loop) {
 	var openPending, openPlain []string
 	ff.AtReturns(func(ret *ssa.Return, st uint64) {
 		nRet++
-		for s := 0; s < 16; s++ {
+		for s := 0; s < 32; s++ {
 			if st&(1<<uint(s)) == 0 {
 				continue
 			}
